@@ -416,6 +416,8 @@ func c15r4(c *Ctx, id string) {
 	// the metadata backends themselves refuse a mismatching type
 	check("couchbase.NewCBMetadata", []string{"IsCouchbaseMetadata)"}, "cb-metadata-ctor")
 	check("metadata.NewFSMetadata", []string{"IsFileMetadata)"}, "file-metadata-ctor")
+	// the Couchbase membership keeps its documents where the Couchbase metadata settings say: no such settings, no membership
+	check("couchbase.NewCBMembership", []string{"IsCouchbaseMetadata)"}, "cb-membership-ctor")
 }
 
 func c15r5(c *Ctx, id string) {
